@@ -24,7 +24,7 @@ CONSTANTS KIND,          \* "NN" | "NC" | "CC"
           FULL,          \* TRUE: also malformed / adversarial shapes
           EXPORT         \* TRUE (simulation mode only): print each completed behaviour for replay into the code
 
-MCKeyBytes(id) == <<1>>
+MCKeyBytes(x) == <<1>>
 MCAddrOfIndex(n) == "new"
 
 Users == {"lp1", "lp2", "trader", "attacker"}
